@@ -244,6 +244,16 @@ func checkC02(c C02Case, o *Obs) error {
 			if err := sameFastq(fqItem{fq, nil}, c.Recs[i].Name, seqs[i], quals[i], i); err != nil {
 				return fmt.Errorf("after the consumer modified the records it received earlier in the same pass: %v", err)
 			}
+			// appending to one field of a record must not reach the others
+			seqBefore, qualBefore := bytes.Clone(fq.Sequence), bytes.Clone(fq.Quals)
+			fq.Name = append(fq.Name, "/1"...)
+			if !bytes.Equal(fq.Sequence, seqBefore) || !bytes.Equal(fq.Quals, qualBefore) {
+				return fmt.Errorf("record %d: appending to the Name of a record the reader yielded changed its Sequence or Quals (the fields share storage)", i)
+			}
+			fq.Sequence = append(fq.Sequence, "N"...)
+			if !bytes.Equal(fq.Quals, qualBefore) {
+				return fmt.Errorf("record %d: appending to the Sequence of a record the reader yielded changed its Quals (the fields share storage)", i)
+			}
 			for _, fld := range []*[]byte{&fq.Name, &fq.Sequence, &fq.Quals} {
 				for j := range *fld {
 					(*fld)[j] ^= 0x5a
